@@ -1,11 +1,36 @@
 import Spok.Lemmas.LexTerm
-import Spok.Judge.Syntax
+import Spok.Lemmas.LexShape
+import Spok.Lemmas.ParseTotal
+import Spok.Lemmas.LineCount
+import Spok.Oracle.Syntax
 /-! # Property C08 — parsing any input terminates, deterministically, with a tree or a located error
 
-`lex` and `parse` are total Lean functions, so every input has exactly one result (determinism is
-functionality).  What has to be *proved* is that the result is never one of the explicit
-"the Go code would not get here" outcomes: the lexer's step budget and the command loop's fuel are
-never exhausted (`C08_lexer_halts`), … (parser: under construction). -/
+"For every byte string — valid, malformed, truncated, non-UTF-8 — lexing and parsing terminate and
+return either a tree or an error; they never panic, hang or crash the process, and the same input
+always gives the same result.  Every syntax error cites a line number between 1 and the number of
+lines of the input and quotes that line."
+
+**Determinism is functionality**: `lex` and `parse` are total Lean *functions* of the byte string (no
+oracle argument, no state), so the same input has exactly one result — `rfl`, see `C08_deterministic`.
+What has to be *proved* is that the result is never one of the explicit "the Go code would not get
+here" outcomes of the model:
+
+* the lexer's step budget and the command loop's fuel are never exhausted (`C08_lexer_halts`);
+* the parser never reads the closed channel in a way that matters, `parseTaskCommands` never spins on
+  an exhausted stream, `getLine` never indexes `lines` out of range (`C08_bytes_no_spin_no_panic`);
+* every error — the lexer's own `lines[l.line-1]`, built before the parser sees the token, and the
+  parser's `illegalToken` — cites a line `1 … nLines` and quotes that very line
+  (`C08_bytes_lexer_errors_located`, `C08_bytes_error_located`).
+
+The mechanism (`Lemmas/LexLine`, `Lemmas/LexShape`, `Lemmas/ParseTotal`): in every reachable scanner state
+`line = 1 + newlines left of the cursor` (so `1 ≤ line ≤ nLines`), and the token stream is an
+*admissible stream* `Str`: exactly one final EOF / ERROR token, `#` → COMMENT, `task` → IDENT,
+`{` → COMMAND* → `}` or the final ERROR, every token on a line of the input.  On such a stream every
+parse function stops at the final token at the latest.
+
+The rune-level theorems take `RunesOK rs` ("a newline rune is one byte wide"): `backup` un-counts a line
+only `if width == 1`.  Decoded input satisfies it (`runesOK_decodeAll`), so the byte-level theorems are
+hypothesis-free; for rune lists that are not decodings the property is false (`RunesOK_needed`). -/
 namespace Spok.Props.C08
 open Spok
 
@@ -21,7 +46,165 @@ theorem C08_every_state_makes_progress (l : L) (t : Tag) (ht : t.final = false) 
     ((stepTag l t).2 = .done ∨ 3 * (stepTag l t).1.right.length + rank (stepTag l t).2 < 3 * l.right.length + rank t) :=
   dec_stepTag l t ht
 
-/-- non-vacuity: a task body with two commands lexes to the end -/
-example : (lex "task t(\"a\") {\n go test\n echo {{.X}}\n}\n".toUTF8.toList).halted = true := C08_lexer_halts _
+/-! ## the token stream -/
+
+/-- **shape of the token stream** (all of it, not only what the parser reads): one final EOF or ERROR
+    token and no other; HASH is followed by COMMENT, TASK by IDENT; after LBRACE only COMMANDs up to
+    an RBRACE or the final ERROR; every token but an ERROR is on a line `1 … nLines`, an ERROR cites
+    such a line. -/
+theorem C08_stream_shape (rs : List Rune) (hok : RunesOK rs) : Str (nLines rs) .top (lexRunes rs).toks :=
+  lexRunes_str rs hok
+
+/-- (C) every ERROR token the lexer produces was built with an existing `lines[l.line-1]` -/
+theorem C08_lexer_errors_located (rs : List Rune) (hok : RunesOK rs) :
+    ∀ t ∈ (lexRunes rs).toks, t.ty = .error → 1 ≤ t.errLine ∧ t.errLine ≤ nLines rs :=
+  (lexRunes_str rs hok).errors_located
+
+/-- every other token, the final EOF included, carries a line of the input (what `getLine` indexes) -/
+theorem C08_tokens_located (rs : List Rune) (hok : RunesOK rs) :
+    ∀ t ∈ (lexRunes rs).toks, t.ty ≠ .error → 1 ≤ t.line ∧ t.line ≤ nLines rs :=
+  (lexRunes_str rs hok).lines_located
+
+/-! ## the parser -/
+
+theorem parseRunes_good (rs : List Rune) (hok : RunesOK rs) : GoodOpt (nLines rs) (parseRunes rs).fail := by
+  unfold parseRunes
+  simp only [lexRunes_halted, Bool.not_true, Bool.false_eq_true, if_false]
+  exact parseToks_good (lexRunes_str rs hok)
+
+/-- (A) the parser never hangs (`parseTaskCommands` on an exhausted stream, the statement loop's
+    fuel) and never panics (`lines[i]` out of range in `getLine` or in the lexer's error) -/
+theorem C08_no_spin_no_panic (rs : List Rune) (hok : RunesOK rs) :
+    (parseRunes rs).fail ≠ some .spin ∧ (parseRunes rs).fail ≠ some .panic := by
+  have h := parseRunes_good rs hok
+  cases hf : (parseRunes rs).fail with
+  | none => simp
+  | some f =>
+    rw [hf] at h
+    obtain ⟨e, rfl, _⟩ := h
+    simp
+
+/-- (B) a syntax error cites a line of the input and quotes that line -/
+theorem C08_error_located (rs : List Rune) (hok : RunesOK rs) (e : PErr)
+    (h : (parseRunes rs).fail = some (.err e)) : 1 ≤ e.cited ∧ e.cited ≤ nLines rs ∧ e.ctx = e.cited := by
+  have hg := parseRunes_good rs hok
+  rw [h] at hg
+  obtain ⟨e', he, h1, h2, h3⟩ := hg
+  cases he
+  exact ⟨h1, h2, h3⟩
+
+/-- the outcome is a tree or a located error: the three-way summary of (A) and (B) -/
+theorem C08_tree_or_located_error (rs : List Rune) (hok : RunesOK rs) :
+    (parseRunes rs).fail = none ∨
+    ∃ e, (parseRunes rs).fail = some (.err e) ∧ 1 ≤ e.cited ∧ e.cited ≤ nLines rs ∧ e.ctx = e.cited := by
+  have h := parseRunes_good rs hok
+  cases hf : (parseRunes rs).fail with
+  | none => exact Or.inl rfl
+  | some f =>
+    rw [hf] at h
+    obtain ⟨e, rfl, h1, h2, h3⟩ := h
+    exact Or.inr ⟨e, rfl, h1, h2, h3⟩
+
+/-! ## byte strings: every input, hypothesis-free -/
+
+theorem C08_bytes_stream_shape (bytes : List UInt8) :
+    Str (nLines (decodeAll bytes)) .top (lex bytes).toks :=
+  C08_stream_shape _ (runesOK_decodeAll bytes)
+
+theorem C08_bytes_lexer_errors_located (bytes : List UInt8) :
+    ∀ t ∈ (lex bytes).toks, t.ty = .error → 1 ≤ t.errLine ∧ t.errLine ≤ nLines (decodeAll bytes) :=
+  C08_lexer_errors_located _ (runesOK_decodeAll bytes)
+
+theorem C08_bytes_tokens_located (bytes : List UInt8) :
+    ∀ t ∈ (lex bytes).toks, t.ty ≠ .error → 1 ≤ t.line ∧ t.line ≤ nLines (decodeAll bytes) :=
+  C08_tokens_located _ (runesOK_decodeAll bytes)
+
+theorem C08_bytes_no_spin_no_panic (bytes : List UInt8) :
+    (parse bytes).fail ≠ some .spin ∧ (parse bytes).fail ≠ some .panic :=
+  C08_no_spin_no_panic _ (runesOK_decodeAll bytes)
+
+theorem C08_bytes_error_located (bytes : List UInt8) (e : PErr) (h : (parse bytes).fail = some (.err e)) :
+    1 ≤ e.cited ∧ e.cited ≤ nLines (decodeAll bytes) ∧ e.ctx = e.cited :=
+  C08_error_located _ (runesOK_decodeAll bytes) e h
+
+theorem C08_bytes_tree_or_located_error (bytes : List UInt8) :
+    (parse bytes).fail = none ∨
+    ∃ e, (parse bytes).fail = some (.err e) ∧ 1 ≤ e.cited ∧ e.cited ≤ nLines (decodeAll bytes) ∧ e.ctx = e.cited :=
+  C08_tree_or_located_error _ (runesOK_decodeAll bytes)
+
+/-- (D) determinism: `parse` and `lex` are functions — two runs on the same input are the same term -/
+theorem C08_deterministic (b1 b2 : List UInt8) (h : b1 = b2) : parse b1 = parse b2 ∧ lex b1 = lex b2 := by
+  subst h; exact ⟨rfl, rfl⟩
+
+/-! ## the executable judge accepts the model -/
+
+/-- **`Judge.c08` holds of the model's own outcome, for every input**: the outcome the oracle prints
+    for the model (`Oracle.Syntax.outcomeOf`) is a tree, or an error whose cited line is
+    `1 … 1 + countNL bytes` and whose quoted text is that line of the input, trimmed — never `panic`,
+    `hang`. -/
+theorem judge_accepts_model (bytes : List UInt8) :
+    Judge.c08 bytes (Oracle.Syntax.outcomeOf bytes (parse bytes)) = true := by
+  unfold Oracle.Syntax.outcomeOf
+  rcases C08_bytes_tree_or_located_error bytes with h | ⟨e, h, h1, h2, h3⟩
+  · rw [h]; rfl
+  · rw [h]
+    rw [nLines_decodeAll] at h2
+    obtain ⟨q, hq⟩ := trimmedLine_isSome bytes e.cited h1 h2
+    simp only [h3, hq, Judge.c08]
+    simp [h1, h2]
+
+/-! ## non-vacuity -/
+
+/-- (a) `a := "b"` ⏎ `c := "d` — an unterminated string on line 2: a *lexer* error, citing line 2 of 2 -/
+def lexerError : List UInt8 := [97, 32, 58, 61, 32, 34, 98, 34, 10, 99, 32, 58, 61, 32, 34, 100]
+
+set_option maxRecDepth 100000 in
+theorem lexerError_tokens : (lex lexerError).toks.map (fun t => (t.ty, t.line, t.errLine)) =
+    [(.ident, 1, 0), (.declare, 1, 0), (.string, 1, 0), (.ident, 2, 0), (.declare, 2, 0), (.error, 2, 2)] := by
+  decide +kernel
+
+set_option maxRecDepth 100000 in
+theorem lexerError_outcome : (parse lexerError).fail = some (.err ⟨2, 2⟩) := by decide +kernel
+
+example : 1 ≤ 2 ∧ 2 ≤ nLines (decodeAll lexerError) ∧ (2 : Nat) = 2 :=
+  C08_bytes_error_located lexerError ⟨2, 2⟩ lexerError_outcome
+
+/-- (b) `a := "b"` ⏎ ⏎ `c("x")` ⏎ — lexes without error; the *parser* rejects the `(` on line 3 (`illegalToken`) -/
+def parserError : List UInt8 := [97, 32, 58, 61, 32, 34, 98, 34, 10, 10, 99, 40, 34, 120, 34, 41, 10]
+
+set_option maxRecDepth 100000 in
+theorem parserError_no_lexer_error : ∀ t ∈ (lex parserError).toks, t.ty ≠ .error := by decide +kernel
+
+set_option maxRecDepth 100000 in
+theorem parserError_outcome : (parse parserError).fail = some (.err ⟨3, 3⟩) := by decide +kernel
+
+example : 1 ≤ 3 ∧ 3 ≤ nLines (decodeAll parserError) ∧ (3 : Nat) = 3 :=
+  C08_bytes_error_located parserError ⟨3, 3⟩ parserError_outcome
+
+/-- (c) `# c` ⏎ `task t("a") -> out {` ⏎ ` go build` ⏎ `}` ⏎ — a tree -/
+def wellFormed : List UInt8 := "# c\ntask t(\"a\") -> out {\n go build\n}\n".toUTF8.toList
+
+set_option maxRecDepth 100000 in
+theorem wellFormed_outcome : (parse wellFormed).fail = none ∧ (parse wellFormed).tree.length = 1 := by
+  decide +kernel
+
+/-- truncated, non-UTF-8 input: `task t(` then the bytes `FF FE` — still a located error -/
+example : (parse [116, 97, 115, 107, 32, 116, 40, 0xFF, 0xFE]).fail ≠ some .panic :=
+  (C08_bytes_no_spin_no_panic _).2
+
+example : Judge.c08 lexerError (Oracle.Syntax.outcomeOf lexerError (parse lexerError)) = true :=
+  judge_accepts_model _
+
+/-- the judge is not trivially true: it rejects a panic, a hang, an error citing line 0 or a line past
+    the end, and an error quoting the wrong line -/
+example : Judge.c08 lexerError .panic = false ∧ Judge.c08 lexerError .hang = false ∧
+    Judge.c08 lexerError (.err 0 [97]) = false ∧ Judge.c08 lexerError (.err 3 []) = false ∧
+    Judge.c08 lexerError (.err 2 [97, 32, 58, 61, 32, 34, 98, 34]) = false := by decide +kernel
+
+/-- `RunesOK` is needed at the rune level: on a rune list that is no decoding — `a` followed by a
+    *two-byte* "newline" — the line counter runs past the number of lines (`backup` does not un-count
+    it), the EOF token sits on line 3 of 2 and `getLine` would index out of range.  Such a list never
+    comes out of `decodeAll` (`runesOK_decodeAll`). -/
+theorem RunesOK_needed : (parseRunes [asc 97, ⟨10, 10, [0]⟩]).fail = some .panic := by decide +kernel
 
 end Spok.Props.C08
